@@ -255,6 +255,13 @@ def _get_rails(config_ids: List[str]) -> LLMRails:
         if os.path.commonprefix([full_path, base_path]) != base_path:
             raise ValueError("Access to the specified path is not allowed.")
 
+        # Only a configuration directory can be loaded. In multi-config mode the root
+        # is the folder that holds the configurations, not a configuration itself.
+        if not os.path.isdir(full_path) or (
+            not app.single_config_mode and full_path == base_path
+        ):
+            raise ValueError(f"Invalid config path {full_path}.")
+
         rails_config = RailsConfig.from_path(full_path)
 
         if not full_llm_rails_config:
